@@ -13,7 +13,7 @@ BUILTINS = {'len', 'ord', 'chr', 'int', 'float', 'str', 'callable', 'isinstance'
             'set', 'sorted', 'reversed', 'filter', 'map', 'zip', 'any', 'all', 'repr', 'print',
             'IndexError', 'ValueError', 'TypeError', 'KeyError'}
 SPEC_FORMS = {'old', 'forall', 'exists', 'implies', 'holds', 'fresh', 'iff', 'ite', 'kind_is',
-              'same_str', 'allocated', 'unchanged', 'owned', 'chars_hold'}
+              'same_str', 'allocated', 'unchanged', 'owned', 'chars_hold', 'numshape'}
 
 LIST_MUTATORS = {'append', 'pop', 'clear', 'insert', 'extend', 'sort', 'reverse', 'remove'}
 
@@ -174,6 +174,9 @@ class Exec(Engine):
                     return ci.consts[node.attr]
         if isinstance(node, ast.Call) and isinstance(node.func, ast.Name) and node.func.id == 'chr' and len(node.args) == 1:
             return chr(self.const_eval(module, node.args[0]))
+        if isinstance(node, ast.Call) and isinstance(node.func, ast.Name) and node.func.id == 'dict' and \
+                len(node.args) == 1 and not node.keywords:
+            return dict(self.const_eval(module, node.args[0]))
         if isinstance(node, ast.UnaryOp) and isinstance(node.op, ast.USub):
             return -self.const_eval(module, node.operand)
         raise Unsupported('module-level initialiser is not constant: %s' % ast.unparse(node), node)
@@ -256,14 +259,14 @@ class Exec(Engine):
                 raise Unsupported('__class__ of non-object', node)
             subs = REG.subclasses(a.cls)
             d = self.dyn_class(s, a.t)
-            return [(s, mk_union([(d == REG.class_ids[c], VStr(lit=c)) for c in subs]))]
+            return [(s, mk_union([(d == REG.class_ids[c], VStr(lit=REG.classes[c].real)) for c in subs]))]
         return self.umap(st, v, one, node)
 
     def find_method(self, clsname, name):
         "-> key of the real method by walking the real class hierarchy"
         cc = REG.classes.get(clsname)
         seen = set()
-        todo = [(cc.module, clsname)] if cc else []
+        todo = [(cc.module, cc.real)] if cc else []
         while todo:
             mod, cn = todo.pop(0)
             if (mod, cn) in seen:
